@@ -152,9 +152,12 @@ structure LWF (L : Ledger) : Prop where
   /-- inputs naming a known transaction name one of its outputs -/
   validRefs : ∀ p ∈ known L, ∀ i ∈ p.1.ins, ∀ q ∈ known L, q.1.hash = i.hash → i.index < q.1.outs.length
   outsBound : ∀ p ∈ known L, p.1.outs.length ≤ nullIndex
+  /-- one lease per output -/
+  leaseKeys : (L.leases.map (·.1)).Nodup
 
 theorem lwf_empty : LWF {} := by
-  refine ⟨List.Pairwise.nil, List.nodup_nil, List.nodup_nil, ?_, ?_, List.nodup_nil, ?_, ⟨fun _ => 0, ?_⟩, ?_, ?_⟩
+  refine ⟨List.Pairwise.nil, List.nodup_nil, List.nodup_nil, ?_, ?_, List.nodup_nil, ?_, ⟨fun _ => 0, ?_⟩, ?_, ?_,
+    List.nodup_nil⟩
   all_goals intro p hp; cases hp
 
 /-- an unconfirmed transaction does not conflict with a confirmed one (kept next to `Good`: it holds between events,
@@ -313,6 +316,7 @@ structure Refines (s : Store) (L : Ledger) : Prop where
   nodupTxrecs : NodupKeys s.txrecs
   nodupUnmined : NodupKeys s.unmined
   nodupDebits : NodupKeys s.debits
+  nodupLocked : NodupKeys s.locked
 
 /-- the invariant of the simulation -/
 structure Good (s : Store) (L : Ledger) : Prop where
